@@ -15,6 +15,8 @@ import ChibiVerif.Lemmas.LiteralsLemmas
 import ChibiVerif.Lemmas.TextLemmas
 import ChibiVerif.Lemmas.LiteralsReaderLemmas
 
+set_option linter.unusedSimpArgs false
+
 namespace ChibiVerif.Props.C11
 open ChibiVerif.Gen.Literals
 open ChibiVerif.Spec.Literals
@@ -75,6 +77,38 @@ theorem C11_int_suffix :
     ∀ e ∈ suffixSpellings,
       matchSuffix (e.1.toList.map (fun ch => BitVec.ofNat 8 ch.toNat)) 0 = (e.1.length, e.2.hasL, e.2.hasU) := by
   decide
+
+/-- **C11 (integer-constant value).**  For every spelling `prefix digits suffix` of an integer constant (hexadecimal
+    `0x`/`0X`, binary `0b`/`0B`, octal with leading `0`, decimal with a non-zero first digit; any digit sequence; any of
+    the 23 suffix spellings) whose value fits 64 bits: `convert_pp_int` accepts the whole token, its value is the value of
+    the digit sequence in that base (`strtoul`'s digit loop) and its type is the ladder's type for that base and suffix. -/
+theorem C11_int_value (base : Nat) (front ds : List Byte) (h : IntSpelling base front ds)
+    (e : String × Suffix) (he : e ∈ suffixSpellings)
+    (hv : digitsValue base (ds.map (fun d => hexDigitValue d.toNat)) < 2 ^ 64) :
+    convertPpInt (front ++ ds ++ sfxBytes e.1) =
+      some (BitVec.ofNat 64 (digitsValue base (ds.map (fun d => hexDigitValue d.toNat))),
+            intLitType base e.2.hasL e.2.hasU (BitVec.ofNat 64 (digitsValue base (ds.map (fun d => hexDigitValue d.toNat))))) :=
+  int_value base front ds h e he hv
+
+/-- non-vacuity: `0x7fUL` -/
+example : IntSpelling 16 [48#8, 120#8] [0x37#8, 0x66#8] ∧ ("UL", Suffix.ul) ∈ suffixSpellings ∧
+    digitsValue 16 ([0x37#8, 0x66#8].map (fun d => hexDigitValue d.toNat)) = 0x7f :=
+  ⟨.hex _ _ _ (Or.inl rfl) (by decide), by decide, by decide⟩
+
+/-- **C11 (integer constants, spelling to value and type).**  Corollary of `C11_int_value` and `C11_int_type`: whenever
+    C11 6.4.4.1p5 gives the constant a type, the token gets the value of its digits and (the chibicc representation of)
+    that type. -/
+theorem C11_int_literal (base : Nat) (front ds : List Byte) (h : IntSpelling base front ds)
+    (e : String × Suffix) (he : e ∈ suffixSpellings)
+    (hv : digitsValue base (ds.map (fun d => hexDigitValue d.toNat)) < 2 ^ 64) (t : IntType)
+    (ht : litType (base == 10) e.2 (digitsValue base (ds.map (fun d => hexDigitValue d.toNat))) = some t) :
+    convertPpInt (front ++ ds ++ sfxBytes e.1) =
+      some (BitVec.ofNat 64 (digitsValue base (ds.map (fun d => hexDigitValue d.toNat))), collapse t) := by
+  have hb : base = 2 ∨ base = 8 ∨ base = 10 ∨ base = 16 := by cases h <;> simp
+  have hn : (BitVec.ofNat 64 (digitsValue base (ds.map (fun d => hexDigitValue d.toNat)))).toNat =
+      digitsValue base (ds.map (fun d => hexDigitValue d.toNat)) := by
+    simp only [BitVec.toNat_ofNat]; exact Nat.mod_eq_of_lt hv
+  rw [C11_int_value base front ds h e he hv, C11_int_type base hb e.2 _ t (by rw [hn]; exact ht)]
 
 /-- the types the ladder can produce have the size and signedness of the C11 type (LP64) -/
 theorem C11_int_type_repr :
@@ -277,6 +311,32 @@ theorem C11_string_char (p : List Byte) (endp fuel i : Nat) (acc : List Nat) (c 
 
 example : (0x20AC#32).toNat < 0x110000 ∧ (0x20AC#32).toNat ≠ 92 ∧
     ([0x22#8, 0xE2#8, 0x82#8, 0xAC#8, 0x22#8] : List Byte).drop 1 = encodeUtf8 0x20AC#32 ++ [0x22#8] := by decide
+
+-- ------------------------------------------------------------------ string literals: the whole literal (6.4.5p6)
+
+/-- **C11 (string literals).**  For every reader (`"…"`/`u8"…"`, `u"…"`, `U"…"`/`L"…"`), every text before the opening
+    quote and after the closing quote, and every body made of source characters (any code point up to U+10FFFF other than
+    NUL, new-line, `"` and `\`, written in UTF-8) and escape sequences that `read_escaped_char` reads back completely in
+    their context (`ItemsOK`; C11_escape, C11_escape_octal, C11_escape_hex give the instances): the token ends at the
+    closing quote, its array length is the number of code units plus one, and its code units are, item by item, the
+    UTF-8 bytes / UTF-16 units / code point of each character (Spec `encodeChar`) and the escape value truncated to the
+    element width. -/
+theorem C11_strings (r : StrReader) (ty : Ty) (pre post : List Byte) (its : List SrcItem) (hok : ItemsOK post its) :
+    readString r ty (pre ++ 34#8 :: (renderItems its ++ 34#8 :: post)) pre.length =
+      .ok ⟨ty, its.flatMap (itemUnits r), pre.length + 1 + (renderItems its).length + 1,
+           (pre ++ 34#8 :: (renderItems its ++ 34#8 :: post)).take (pre.length + 1 + (renderItems its).length + 1)⟩ ∧
+    (∀ c : BitVec 32, CharOK c →
+      itemUnits .narrow (.char c) = encodeChar .none c.toNat ∧ itemUnits .utf16 (.char c) = encodeChar .u c.toNat ∧
+      itemUnits .utf32 (.char c) = encodeChar .U c.toNat) := by
+  refine ⟨readString_items r ty pre post its hok, fun c hc => ?_⟩
+  have h := hc.1
+  exact ⟨by simp [itemUnits, encodeChar, encode_toNat c (by omega)], by simp [itemUnits, encodeChar, utf16_toNat c h],
+    by simp [itemUnits, encodeChar]⟩
+
+/-- non-vacuity: the body `a\n€` followed by `" x` -/
+example : ItemsOK [0x20#8, 0x78#8] [.char 0x61#32, .esc [0x6E#8] 10#32, .char 0x20AC#32] := by
+  refine ⟨by unfold CharOK; decide, ⟨0x6E#8, [], rfl, by decide, by decide, by simp⟩, by decide, ?_, trivial⟩
+  unfold CharOK; decide
 
 -- ------------------------------------------------------------------ adjacent string literals (6.4.5p5)
 
